@@ -218,6 +218,9 @@ def instantiate(lens, dims_idx, opts, alphabet, rng, seed):
         spec["const"] = {f"k{tag}": 5 + seed % 3}
         if rng.random() < 0.5:
             spec["const"][f"kk{tag}"] = f"c{tag}"
+        if keys and rng.random() < 0.3:
+            # a constant named like a swept key: the swept value wins (with and without dims alike)
+            spec["const"][keys[-1]] = f"const-shadowed-by-{keys[-1]}"
     overwritten = None
     if opts[1]:
         reads = [keys[0]] if keys else []
